@@ -39,6 +39,19 @@ CHECKS = {
         "components": {"real": REAL, "stub": STUB_SCHED + ["entropy source under fault (stuck at zero, error at draw k, replayed block)"]},
         "assumptions": ["blinded elements are those the property names: Groth16 Ar, Bs, Krs, Commitments[i]; PLONK LRO, Z, H, Bsb22Commitments[i] and the opening proofs", "U is what the real prover emits when every entropy byte is zero", "r != s is decided with a pairing on BN254 only"],
     },
+    "C08": {
+        "engine": "c08",
+        "level": "fault_enumeration",
+        "rule": "one evaluation = one decode or one Verify of a faulted artefact; faults: truncation / byte flip at and around every logged element boundary, length-prefix values, trailing bytes, read errors, "
+                "chunked and EOF-with-data readers, in-memory length edits of every variable-length proof part, witness header / vector-length lies; a case = (backend, curve, circuit, fault tape)",
+        "quick": {"runs": 640, "budget_s": 200, "selftest_runs": 4, "params": {"slots": 24, "faults": 48},
+                  "extra_batches": [{"tag": "bombs", "runs": 16, "workers": 16, "budget_s": 60, "params": {"bombs": "1", "faults": 3}}]},
+        "thorough": {"runs": 24000, "budget_s": 2400, "selftest_runs": 6, "params": {"slots": 64, "faults": 96},
+                     "extra_batches": [{"tag": "bombs", "runs": 64, "workers": 16, "budget_s": 240, "params": {"bombs": "1", "faults": 3}}]},
+        "expect_probes": ["truncation", "byte_flip", "length_prefix", "trailing_bytes", "read_error", "struct_length_edit", "witness_fault", "chunked_reader", "decoded", "decode_error", "verify_rejected"],
+        "components": {"real": REAL, "stub": ["stream source (simulated disk with chunking, EOF-with-data, read errors, truncation, corruption)", "entropy source (keyed PRF)"]},
+        "assumptions": ["panics in goroutines that the verifier itself starts kill the worker and are attributed by re-running the run alone", "allocation bombs are run under a 12 GB address-space limit"],
+    },
     "C06": {
         "engine": "c06",
         "level": "exploration",
